@@ -25,9 +25,12 @@
 (* Deliberate behaviour of the code that the model has: reducing coordinate decoding everywhere       *)
 (* (x >= p accepted and reduced; only the 25519 field refuses a set top bit), "x = 0 means identity"  *)
 (* in SEC1-compressed and ZCash-Pasta forms, either sign accepted for a point with a zero coordinate, *)
-(* u-only Montgomery form, BLS12-381 flags as the code reads them.  F.variant = "coded" is the code   *)
-(* as it is, "strict" the proposed repair where one exists; configurations that reproduce a defect of *)
-(* the code are expected to FAIL a named invariant (checks/C13.py demands exactly that failure).      *)
+(* u-only Montgomery form, BLS12-381 flags as the code reads them.  The reserved encoding of the      *)
+(* identity is a convention, not mathematics: Enc(O) is well formed whatever it is (IdEncoding), and  *)
+(* Sem reads "x = 0" as the identity only on curves that have no point with that abscissa.            *)
+(* F.variant = "coded" is the code as it is, "strict" the proposed repair where one exists;           *)
+(* configurations that reproduce a defect of the code are expected to FAIL a named invariant          *)
+(* (checks/C13.py demands exactly that failure; the list is in ElemCodecMC).                          *)
 (* The pure operators (LenRule, FlagRule, Verdict) are reused by ElemCodecTrace to judge the real     *)
 (* code; Family = "xgen" prints exact cases for the generic point code instantiated on the toy field. *)
 EXTENDS Integers, Sequences, FiniteSets, TLC, Json
